@@ -11,12 +11,13 @@ def jobs(tier):
     if t:
         strata.append(dict(name="S-elem4/near-miss", ns=[3], pin={3: 3}, params=dict(K_m=1, K_r=1, alphabet=SIGMA_T4)))
     js += shape_strata("harness.pipeline", "c02pair", tier, quick=strata, thorough=strata, max_seconds=3000 if t else 240)
+    js.append(job("harness.pipeline", "c02_wlpairs", "WL-pairs", {}, max_seconds=3000 if t else 240))
     return js
 
 
 def main(tier):
     return run_check(
-        "C02", tier, jobs(tier), bounds=dict(std_bounds(tier, relist=False), near_miss="pairs (M, M'') inside one path: one solver-chosen bond toggled, or one label moved to another atom; n <= %d" % (4 if tier == "thorough" else 3)),
+        "C02", tier, jobs(tier), bounds=dict(std_bounds(tier, relist=False), wl_pairs="non-isomorphic pairs with equal degree sequences (C6 ring vs 2xC3, C8 ring vs C4+C4, prism vs K3,3), one symbolic mass label at a solver-chosen atom (or none) on each side", near_miss="pairs (M, M'') inside one path: one solver-chosen bond toggled, or one label moved to another atom; n <= %d" % (4 if tier == "thorough" else 3)),
         assumptions=STD_ASSUME + ["left-inverse argument: if REF-DECODER(tucan(G)) is isomorphic to G for every G of the domain then tucan(G1) == tucan(G2) implies G1 ~ dec(s) ~ G2; REF-DECODER and REF-ISO share no code with tucan",
                                   "a missing label and the invariant code's default 0 are the same colour"],
         outside=["n > 5 beyond the curated skeletons", "WL-hard pairs beyond the curated skeletons"],
